@@ -629,6 +629,10 @@ class Oracle(object):
                 else:
                     where.append('lost')
             sig = '+'.join(sorted(set(where) - {'done'}))
+            quiet = not (sim.scheduler.observation_queue or sim.cluster._tasks['running']
+                         or sim.cluster._resources['idle'] or sim.cluster._resources['ingest']
+                         or sim.cluster._resources['occupied'] or self.inflight)
+            sig += '/quiet' if quiet else '/busy'
             res.stuck = dict(where=where, queue=len(sim.scheduler.observation_queue),
                              running=len(sim.cluster._tasks['running']),
                              idle=sorted(sim.cluster._resources['idle']),
